@@ -1431,9 +1431,9 @@ Sim *make_fipsgate_sim() { return new FipsGateSim(); }
 
 // Called by the driver before a workload that is not one of the FIPS simulations runs in the FIPS binary: the self-tests count as
 // passed (as after any earlier library call of the process), so that a run does not depend on what the worker executed before.
-void fips_mark_self_tests_passed()
+void fips_mark_self_tests_passed(bool not_yet_run)
 {
         volatile uint32_t *st = (volatile uint32_t *) libsym("self_test_status", false);
         if (st)
-                *st = 0; // SELF_TEST_DONE_AND_OK
+                *st = not_yet_run ? 2 : 0; // SELF_TEST_NOT_DONE / SELF_TEST_DONE_AND_OK
 }
